@@ -159,3 +159,41 @@ theorem cirKJ_floor_amplification (s kappa theta sigma dt r z : ℝ) (hs : 0 < s
   rw [cirKJ_odd_part _ _ _ _ _ _ _ hdt hpos, hm, Real.sqrt_sq hs.le]
 
 end FinVerif.Props.C19
+
+namespace FinVerif.Props.C19
+open FinVerif.Model.C19 FinVerif.Lemmas.C19
+
+/-- the multi-factor drift sum with one factor is the one-factor drift sum -/
+theorem lmmDriftMF_one_factor (zkj : ℝ) (l : List (ℝ × ℝ × ℝ)) :
+    lmmDriftMF (l.map fun x => (x.1, x.2.1, x.2.2 * zkj)) = lmmDrift zkj l := by
+  unfold lmmDriftMF lmmDrift
+  rw [List.foldl_map]
+  congr 1
+  funext acc x
+  ring
+
+/-- **lmmStepMF_one_factor** — with a single factor the multi-factor predictor–corrector step IS the one-factor step
+(same accrual `taus[i]` of forward `i` in the predictor AND the corrector sums), for every forward and every step. -/
+theorem lmmStepMF_one_factor (dtj w : ℝ) (cur taus gammas : List ℝ) (m : ℕ) :
+    lmmStepMF R dtj [w] cur taus [gammas] m = lmmStep1F R dtj w cur taus gammas m := by
+  unfold lmmStepMF lmmStep1F
+  simp only [lmmZZ, sumL_eq_sum, List.map_cons, List.map_nil, List.sum_cons, List.sum_nil, add_zero,
+    List.zipWith_cons_cons, List.zipWith_nil_right, R_exp, R_sqrt, R_half]
+  have hA : ∀ (f : ℕ → ℝ),
+      lmmDriftMF (List.map (fun i => (f i, taus.getD i 0, gammas.getD i 0 * gammas.getD m 0)) (List.map (· + 1) (List.range m)))
+        = lmmDrift (gammas.getD m 0) (List.map (fun i => (f i, taus.getD i 0, gammas.getD i 0)) (List.map (· + 1) (List.range m))) := by
+    intro f
+    rw [← lmmDriftMF_one_factor]
+    simp only [List.map_map]
+    rfl
+  rw [hA (fun i => cur.getD i 0), hA (fun _ => _)]
+
+/-- **lmmStepMF_driftless** — the forward that resets next has no drift in the multi-factor simulator either. -/
+theorem lmmStepMF_driftless (dtj : ℝ) (ws cur taus : List ℝ) (lams : List (List ℝ)) :
+    lmmStepMF R dtj ws cur taus lams 0
+      = cur.getD 0 0 * Real.exp (-(1 / 2) * (lams.map fun l => l.getD 0 0 * l.getD 0 0).sum * dtj
+          + (List.zipWith (fun (l : List ℝ) w => l.getD 0 0 * w) lams ws).sum * Real.sqrt dtj) := by
+  simp only [lmmStepMF, lmmDriftMF, List.range_zero, List.map_nil, List.foldl_nil, sumL_eq_sum, R_exp, R_sqrt, R_half]
+  congr 2; ring
+
+end FinVerif.Props.C19
